@@ -3,6 +3,7 @@
 In-process round trip (harness op `unparse`): parse -> render -> parse -> render. The rendering must be accepted, the
 re-parsed tree must equal the original up to ranges and load/store tags, and rendering must be a fixed point.
 """
+import ast
 import json
 import struct
 from collections import Counter
@@ -67,6 +68,64 @@ def fstrings(rng, n):
             "f'{a:\\n}'", "f'{\"x\\ny\"}'", "f'{\"it''s\"}'", "f\"{'it\\'s'}\"" if False else "f'{x}'", "f'{a!r:^{w}}|{b}'", "rf'\\d{a}'", "f'{(lambda: 1)()}'", "f'{a if b else c}'", "f'{a, b}'", "f'{*a, b}'", "f'{ {1: 2}[1] }'",
             "f'{\"{\"}'", "f'{\"}\"}'", "f'é{a}日'", "f'{a}' \"'\" '\"'", "f'\\'{a}\"'", "f'\"{a}\\''"]
     return out
+
+
+def shape_families():
+    """Small-scope exhaustive families where the renderer has special cases: call argument lists (sole generator
+    argument, starred, keywords, ** unpacking in every order the grammar allows), subscripts and slices, lambda
+    parameter lists, comprehension clauses, dict / set displays with unpacking. Only texts the reference accepts."""
+    import itertools
+    out = []
+    pos = ["a", "*a", "(x for x in y)", "lambda: 0", "a if b else c", "(yield)", "(a := 1)", "-1"]
+    kws = ["k=v", "**kw", "k=(x for x in y)", "k=lambda: 0", "k=(yield)", "k=*a" if False else "k2=a if b else c"]
+    for np_ in range(0, 3):
+        for ps in itertools.product(pos, repeat=np_):
+            for nk in range(0, 3):
+                for ks in itertools.product(kws, repeat=nk):
+                    if len(set(k.split("=")[0] for k in ks if not k.startswith("**"))) != len([k for k in ks if not k.startswith("**")]):
+                        continue
+                    args = ", ".join(list(ps) + list(ks))
+                    out.append("f(%s)" % args)
+    out += ["f(x for x in y)", "f((x for x in y))", "f(a)(x for x in y)", "f((x for x in y), *a)", "f(*a, (x for x in y))", "f(k=v, *a)", "f(**kw, k=v)", "f(*a, k=v, *b, **kw, **kw2)", "f(a,)", "f(*a,)",
+            "f(**kw,)", "f((x for x in y),)", "f(x for x in y if z)", "f((yield))", "f(k=(yield))", "f(await a)"]
+    subs = ["a", "a:b", "a:b:c", ":", "::", ":b", "a:", "::c", ":b:c", "a::c", "*a", "(a, b)", "(a:=1)", "a if b else c", "lambda: 0", "-1", "..."]
+    for n in range(1, 3):
+        for ss in itertools.product(subs, repeat=n):
+            out.append("x[%s]" % ", ".join(ss))
+            if n == 1:
+                out.append("x[%s,]" % ss[0])
+    params = ["", "a", "a, b=1", "a, /", "a, /, b", "a=1, /, b=2", "*a", "*, k", "*, k=1", "*a, k", "**kw", "a, *b, c, d=1, **e", "a, /, b, *, c", "*, a=1, b", "a=(x for x in y)", "a=lambda: 0", "a=(yield)"]
+    for p_ in params:
+        out.append("lambda %s: 0" % p_ if p_ else "lambda: 0")
+        out.append("lambda %s: (yield)" % p_ if p_ else "lambda: (yield)")
+    clauses = ["for a in b", "for a, b in c", "for a in b if c", "for a in b if c if d", "for a in b for c in d", "async for a in b", "for a in (yield)", "for a in b if (c := d)", "for a in lambda: 0, 1" if False else "for a in (lambda: 0)",
+               "for (a, b) in c", "for [a, *b] in c", "for a.b in c", "for a[0] in c", "for a in b, c" if False else "for a in (b, c)", "for a in b if lambda: 0" if False else "for a in b if (lambda: 0)"]
+    for c1 in clauses:
+        for tpl in ("[x %s]", "(x %s)", "{x %s}", "{x: y %s}", "[(x, y) %s]", "[x if y else z %s]", "[*x for x in y]" if False else "[lambda: x %s]"):
+            out.append(tpl % c1)
+        for c2 in clauses[:6]:
+            out.append("[x %s %s]" % (c1, c2))
+    items = ["a: b", "**c", "'k': (x for x in y)", "a: lambda: 0", "**(a or b)", "**a.b", "a: b if c else d", "(a, b): c", "**{'x': 1}"]
+    for n in range(0, 3):
+        for it in itertools.product(items, repeat=n):
+            out.append("{%s}" % ", ".join(it))
+    sets = ["a", "*b", "(x for x in y)", "lambda: 0", "a if b else c", "(a, b)", "*a, " if False else "*(a or b)"]
+    for n in range(1, 3):
+        for it in itertools.product(sets, repeat=n):
+            for tpl in ("{%s}", "[%s]", "(%s,)"):
+                out.append(tpl % ", ".join(it))
+    seen = set()
+    keep = []
+    for e in out:
+        if e in seen:
+            continue
+        seen.add(e)
+        try:
+            ast.parse(e, mode="eval")
+            keep.append(e)
+        except SyntaxError:
+            pass
+    return keep
 
 
 def erase(n):
@@ -188,6 +247,7 @@ def run(res):
                 items.append(("pair:%s/%d/%d" % (pname, pos, ci), tpl.format(*ops)))
                 ops[pos] = child
                 items.append(("pair-bare:%s/%d/%d" % (pname, pos, ci), tpl.format(*ops)))
+    items += [("shape:%d" % i, c) for i, c in enumerate(shape_families())]
     items += [("const:%d" % i, c) for i, c in enumerate(constants(rng, thorough))]
     items += [("fstr:%d" % i, c) for i, c in enumerate(fstrings(rng, 3000 if thorough else 1500))]
     items += tw.generated_expressions(res.seed, 30000 if thorough else 10000)
